@@ -781,3 +781,47 @@ def param_index(fn, name, ty=None, exclude=()):
         if fn.locals[l].get("name") == name:
             return l
     return None
+
+
+# ------------------------------------------------------------------------------------------------
+# "this step is taken on every iteration", tolerant of the step living in a helper function
+# ------------------------------------------------------------------------------------------------
+def lift_to_inner_loop(fn, b, outer_head=None):
+    """the head of the outermost loop (other than outer_head) that contains b, else b: a step inside `for x in .. { step }`
+    is 'taken' when the loop is entered"""
+    loops = fn.loops()
+    inner = [h for h, body in loops.items() if b in body and h != outer_head]
+    return max(inner, key=lambda h: len(loops[h])) if inner else b
+
+
+def blocks_always_reaching(P, g, pred, outer_head=None, depth=0):
+    """blocks of g (lifted to their inner loop) whose execution certainly leads to a call satisfying pred(name): the
+    call itself, or a call of a crate function in which every path from entry to return passes such a block.
+    Returns [(block, [call chain])]"""
+    out = []
+    for b, t in g.calls():
+        if pred(cname(t)):
+            out.append((lift_to_inner_loop(g, b, outer_head), [g.name]))
+        elif depth < 3:
+            for tgt in P.call_targets(t):
+                k = P.fns.get(tgt)
+                if k is None or k.name == g.name or k.in_tests() or k.is_closure:
+                    continue
+                sub = blocks_always_reaching(P, k, pred, None, depth + 1)
+                if sub and all_paths_to_return_pass(k, 0, [x for x, _c in sub], include_from=True) and \
+                        not _returns_without(k, [x for x, _c in sub]):
+                    out.append((lift_to_inner_loop(g, b, outer_head), [g.name] + sub[0][1]))
+    return out
+
+
+def _returns_without(k, blocks):
+    blocks = set(blocks)
+    if 0 in blocks:
+        return False
+    reach = k.reachable(0, removed_blocks=blocks)
+    return any(k.term(r)["k"] == "return" for r in reach)
+
+
+def direct_callers_in_lib(P, pred):
+    """[(fn, bb, t)] of the non-test call sites whose callee satisfies pred(name)"""
+    return [(f, b, t) for f in P.lib_fns() if not f.in_tests() for b, t in f.calls() if pred(cname(t))]
